@@ -222,8 +222,14 @@ int main(int argc, char** argv) {
                     if (job->has("entry"))
                         entry = job->at("entry").s;
                 } else {
-                    std::ofstream f(dir / entry);
-                    f << job->at("src").s;
+                    std::ofstream f(dir / entry, std::ios::binary);
+                    if (job->has("src_hex")) {
+                        // arbitrary bytes (not necessarily valid UTF-8), two hex digits per byte
+                        const std::string& hx = job->at("src_hex").s;
+                        for (size_t hi = 0; hi + 1 < hx.size(); hi += 2)
+                            f.put((char)std::strtol(hx.substr(hi, 2).c_str(), nullptr, 16));
+                    } else
+                        f << job->at("src").s;
                 }
                 std::vector<std::string> search;
                 if (!stdlib.empty())
